@@ -242,7 +242,7 @@ func TestVerif_C07(t *testing.T) {
 	run.Assume("the ejection order is judged against Trace.CacheImpact(TraceTimeout) as read while the worker is parked (equal impacts in any order); that value itself is judged against the reference estimate Σ span data size × (1 + completed quarters of TraceTimeout since arrival), with ages known to the driver from its own backdating; a trace without a new span since the previous reading may still carry that reading")
 	run.Assume("no span arrives and no send tick fires during an ejection step; kept-decision capacity far above the trace count; DryRun off")
 
-	run.Cases("ejection", run.N(170, 1000), func(ci int, rng *verifkit.Rand) {
+	run.Cases("ejection", run.N(170, 800), func(ci int, rng *verifkit.Rand) {
 		workers := verifkit.Pick(rng, 1, 2, 3, 4)
 		tick := 250 * time.Millisecond // two monitor ticks (100ms) fit between two send ticks
 		ttCfg := time.Duration(verifkit.Pick(rng, 0, 40, 100)) * time.Second
